@@ -441,7 +441,68 @@ def roundtrip(spec: dict, mode: dict) -> tuple[str | None, str]:
                 return f'a second parse of the same bytes differs: {d2}', 'repeat'
     except (Exception, HangTimeout) as e:
         return f'repeating export / parse raised {type(e).__name__}: {str(e)[:200]}', 'repeat'
+    # second generation: the graph that was read is an element graph like any other.  Objects handed out by the parser
+    # are modified through the public API (name setter, item assignment, Attribute.__setitem__ on the first INTEGER /
+    # STRING array); the result must be what the same modifications give on the canonical form (nothing shared between
+    # the parsed elements or their attributes), and must itself survive an export in the other layout / version.
+    try:
+        with time_limit():
+            import copy
+            exp = copy.deepcopy(after)
+            for k, (el, ce) in enumerate(zip(_bfs(got), exp['elems'])):
+                if ce['members'] is None:
+                    continue
+                el.name = ce['name'] + '~'
+                ce['name'] += '~'
+                for key, rec in ce['members']:
+                    if key == 'name':
+                        rec[3] = [ce['name']]
+                for rec in ce['attrs']:
+                    if rec[2] and rec[3] and rec[1] in ('INTEGER', 'STRING'):
+                        new = 77 + k if rec[1] == 'INTEGER' else f'r5-{k}'
+                        el[rec[0]][0] = new
+                        rec[3][0] = new
+                        break
+                el['R5added'] = k
+                rec = ['R5added', 'INTEGER', False, [k]]
+                ce['attrs'].append(rec)
+                ce['keys'].append('r5added')
+                ce['members'].append(['r5added', rec])
+            now = canon(got)
+            if now != exp:
+                return ('after modifying the parsed graph through the API: '
+                        + (diff(exp, now, text=False) or 'the dicts of the elements differ from the expected ones')), 'second'
+            buf3 = io.BytesIO()
+            if mode['fmt'] == 'binary':
+                got.export_binary(buf3, version=(4 if mode['version'] == 5 else 5), unicode=mode['unicode'])
+            else:
+                got.export_kv2(buf3, flat=not mode['flat'], cull_uuid=False, unicode=mode['unicode'])
+            got3, _, _ = dmx.Element.parse(io.BytesIO(buf3.getvalue()), unicode=(mode['unicode'] == 'silent'))
+            d3 = diff(now, canon(got3), text=(mode['fmt'] == 'kv2'))
+            if d3 is not None:
+                return f'the parsed graph, modified and exported again, does not come back: {d3}', 'second'
+    except (Exception, HangTimeout) as e:
+        return f'modifying / exporting the parsed graph raised {type(e).__name__}: {str(e)[:200]}', 'second'
     return None, 'ok'
+
+
+def _bfs(root) -> list:
+    """The elements reachable from `root` in the order canon() numbers them."""
+    from srctools import dmx
+    order, seen = [root], {id(root)}
+    i = 0
+    while i < len(order):
+        el = order[i]
+        i += 1
+        for key, attr in el._members.items():
+            if key == 'name' or attr.type is not dmx.ValueType.ELEMENT:
+                continue
+            for v in (attr._value if attr.is_array else [attr._value]):
+                if v is dmx.NULL or v.is_null or v.is_stub or id(v) in seen:
+                    continue
+                seen.add(id(v))
+                order.append(v)
+    return order
 
 
 def export_bytes(spec: dict, version: int, unicode: str) -> bytes:
